@@ -24,6 +24,7 @@ import gc
 import hmac
 import os
 import queue
+import tempfile
 import threading
 import warnings
 
@@ -34,7 +35,8 @@ from vlib.core import HarnessError, bad, inconclusive, ok
 
 LEVEL = 'exploration'
 RULE = ('hist: Hypothesis lists of 6-40 steps [new type | op actor slot '
-        'method args | copy | hand src->dst | drop | fork | exit] with '
+        'method args | copy | hand src->dst | drop | drop-all-others | fork | '
+        'exit] with '
         'index-modulo addressing over main thread, 1-3 client threads, 0-2 '
         'forked clients and 7 referent types; non-trivial when the referent '
         'raised at least once, or a lifecycle step changed a reference count '
@@ -67,13 +69,16 @@ ASSUMPTIONS = [
     'blocking calls that would never return on the local object either '
     '(acquire on a held lock, get on an empty queue, join with unfinished '
     'tasks) are replaced by their non-blocking / 20 ms-timeout variants',
+    'a "wrong key" is one that differs from the manager\'s key as an HMAC-MD5 '
+    'key (key + zero bytes is the same HMAC key by construction of HMAC and '
+    'is accepted; not counted as a defect)',
     'Pool referents: 1-2 workers, no timeouts / maxtasksperchild, failing '
     'tasks all raise the same exception, no chunked imap; the reference is a '
     'local billiard Pool; the Pool referent is never asked to terminate '
     '(terminate() can block for ever on this tree), its server is killed',
 ]
-SHARDS = {'quick': 4, 'thorough': 16}
-WALL_LIMIT = {'quick': 600, 'thorough': 3600}
+SHARDS = {'quick': 8, 'thorough': 16}
+WALL_LIMIT = {'quick': 1500, 'thorough': 5400}
 
 warnings.filterwarnings('ignore', category=DeprecationWarning,
                         message='.*fork.*')
@@ -90,7 +95,8 @@ class _Stuck(Exception):
 # the manager shared by a batch of cases
 # ---------------------------------------------------------------------------
 
-_M = {'mgr': None, 'pid': None, 'cases': 0, 'dirty': False, 'started': 0}
+_M = {'mgr': None, 'pid': None, 'cases': 0, 'dirty': False, 'started': 0,
+      'dir': None}
 
 
 def _descendants(pid):
@@ -121,7 +127,7 @@ def _shutdown_manager(hard=False):
     if m is None or _M['pid'] != os.getpid():
         return
     proc = m._process
-    address = m.address
+    scratch, _M['dir'] = _M['dir'], None
     below = _descendants(proc.pid) if proc is not None else []
     try:
         if hard and proc is not None:
@@ -144,9 +150,8 @@ def _shutdown_manager(hard=False):
                 os.kill(pid, 9)
             except OSError:
                 pass
-        d = os.path.dirname(address) if isinstance(address, str) else ''
-        if os.path.basename(d).startswith('pymp-') and os.path.isdir(d):
-            shutil.rmtree(d, ignore_errors=True)   # left by a killed server
+        if scratch:
+            shutil.rmtree(scratch, ignore_errors=True)
 
 
 atexit.register(_shutdown_manager)
@@ -159,10 +164,13 @@ def _manager():
         _shutdown_manager()
         gc.unfreeze()           # see _fork_prepare; a full collection per batch
         gc.collect()
-        m = SyncManager()
-        m.start()
+        # the listening socket lives in a directory of ours (billiard's own
+        # per-process temp dir would be left behind by a killed server)
+        scratch = tempfile.mkdtemp(prefix='c20-')
+        m = SyncManager(address=os.path.join(scratch, 'm'))
+        m.start(T.die_with_parent)
         _M.update(mgr=m, pid=os.getpid(), cases=0, dirty=False,
-                  started=_M['started'] + 1)
+                  started=_M['started'] + 1, dir=scratch)
     _M['cases'] += 1
     m = _M['mgr']
     if m._number_of_objects() != 0:      # leftovers of an earlier case
@@ -343,7 +351,9 @@ _LIST = [
     lambda m, i, v: ['mul', _grow(m, i)],
     lambda m, i, v: ['rmul', _grow(m, i)],
     lambda m, i, v: ['imul', _grow(m, i)],
+    lambda m, i, v: ['imul', 2 if 0 < len(m) <= 100 else 0],
     lambda m, i, v: ['iadd', _vlist(v, i)],
+    lambda m, i, v: ['iadd', [i, v]],
     lambda m, i, v: _M_('reverse'),
     lambda m, i, v: _M_('sort'),
     lambda m, i, v: _M_('sort', reverse=True),
@@ -517,6 +527,7 @@ _STEP = _weighted(
     (lambda: st.tuples(st.just('copy'), _A, _A), 2),
     (lambda: st.tuples(st.just('hand'), _A, _A, _A), 2),
     (lambda: st.tuples(st.just('drop'), _A, _A), 3),
+    (lambda: st.tuples(st.just('only'), _A, _A), 1),
     (lambda: st.tuples(st.just('fork'), st.integers(0, 1)), 1),
     (lambda: st.tuples(st.just('exit'), st.integers(0, 3), st.booleans()), 1),
 )
@@ -525,7 +536,7 @@ _STEP = _weighted(
 def hist_cases():
     steps = st.integers(6, 40).flatmap(
         lambda n: st.lists(_STEP.map(list), min_size=n, max_size=n))
-    return st.fixed_dictionaries({'threads': st.sampled_from([1, 2, 3]),
+    return st.fixed_dictionaries({'threads': st.sampled_from([2, 1, 3]),
                                   'steps': steps})
 
 
@@ -662,6 +673,21 @@ class _Hist:
             gc.collect()
         return self.check_count('drop')
 
+    def step_only(self, a, s):
+        """every *other* proxy of this referent is dropped, one by one: the
+        addressed client becomes its sole holder"""
+        rid = self.holds[a][s]
+        for b in range(len(self.actors) - 1, -1, -1):
+            for k in range(len(self.holds[b]) - 1, -1, -1):
+                if self.holds[b][k] == rid and (b, k) != (a, s):
+                    out = self.step_drop(b, k)
+                    if out is not None:
+                        return out
+                    if b == a and k < s:
+                        s -= 1
+        self.labels.add('sole-holder@' + self.kind(a))
+        return None
+
     def step_fork(self):
         nproc = len(self.actors) - 1 - self.nthreads
         if nproc >= self.MAX_PROCS or self.forks >= 4:
@@ -735,6 +761,8 @@ class _Hist:
                         out = self.step_hand(a, s, step[3] % n)
                     elif kind == 'drop':
                         out = self.step_drop(a, s)
+                    elif kind == 'only':
+                        out = self.step_only(a, s)
                     else:
                         raise ValueError('unknown step %r' % (kind,))
             if out is not None:
@@ -823,10 +851,12 @@ _KINDS = ['append', 'setitem', 'put', 'rmw', 'pop', 'dpop', 'setdefault']
 
 def conc_cases():
     return st.fixed_dictionaries({
-        'threads': _sel(4).map(lambda x: max(x, 1)),
-        'procs': _sel(3),
+        # (Hypothesis always starts with the first alternatives: make that
+        # case a useful one - 2 threads + 1 process, 3 kinds)
+        'threads': st.sampled_from([2, 1, 3]),
+        'procs': st.sampled_from([1, 0, 2]),
         'm': st.integers(3, 25),
-        'kinds': st.lists(st.sampled_from(_KINDS), min_size=1, max_size=7,
+        'kinds': st.lists(st.sampled_from(_KINDS), min_size=3, max_size=7,
                           unique=True),
         'lockstyle': st.integers(0, 1),
     })
@@ -989,11 +1019,13 @@ _RTYPES = ['Event', 'Semaphore', 'BoundedSemaphore', 'RLock', 'Condition',
 _ROP = st.tuples(_sel(2), _sel(64), _I, _VAL)
 
 
-def registered_cases():
-    ops = st.integers(4, 25).flatmap(
+def registered_cases(pool=False):
+    """Pool cases cost seconds (two pools are forked), the others
+    milliseconds: they are drawn separately so that both get a known share"""
+    ops = st.integers(10 if pool else 4, 25).flatmap(
         lambda n: st.lists(_ROP.map(list), min_size=n, max_size=n))
-    return st.fixed_dictionaries({
-        'type': _sel(len(_RTYPES)), 'init': _sel(6), 'ops': ops})
+    types = st.just(len(_RTYPES) - 1) if pool else _sel(len(_RTYPES) - 1)
+    return st.fixed_dictionaries({'type': types, 'init': _sel(6), 'ops': ops})
 
 
 class _Owner:
@@ -1099,7 +1131,7 @@ def _handshake(obj, helper):
     def waiter():
         with obj:
             started.set()
-            return obj.wait(30)
+            return obj.wait(120)
     helper.start_call(lambda: T.outcome(waiter))
     if not started.wait(REPLY_TIMEOUT):
         raise _Stuck('condition waiter did not start')
@@ -1121,8 +1153,8 @@ class _Notify:
 
 def _both_wait(obj, helper):
     """both clients wait on the barrier at the same time"""
-    helper.start_call(lambda: T.outcome(lambda: obj.wait(30)))
-    mine = T.outcome(lambda: obj.wait(30))
+    helper.start_call(lambda: T.outcome(lambda: obj.wait(120)))
+    mine = T.outcome(lambda: obj.wait(120))
     return sorted([mine, helper.result()], key=repr)
 
 
@@ -1277,12 +1309,14 @@ def _execute_pool(case):
     out = None
     helper = _ThreadActor()
     # forked before this process owns any proxy: its workers hold none
-    lp = Pool(nworkers)
+    lp = Pool(nworkers, T.orphan_watch)
     box = []
     try:
-        box.append(mgr.Pool(nworkers))
-        for c, msel, i, v in case['ops'][:12]:
-            kind, via, remote, here = _pool_plan(int(msel), i, v)
+        box.append(mgr.Pool(nworkers, T.orphan_watch))
+        for pos, (c, msel, i, v) in enumerate(case['ops'][:12]):
+            # the kind of call rotates with the position, so that even the
+            # all-zero case (Hypothesis' first) goes through every kind
+            kind, via, remote, here = _pool_plan(int(msel) + 4 * pos, i, v)
             got = helper.run(lambda: T.outcome(remote, box[0]))
             want = helper.run(lambda: T.outcome(remote, lp))
             labels.add('op:Pool.' + kind)
@@ -1341,6 +1375,15 @@ def auth_cases():
     })
 
 
+def _hmac_key(key):
+    """what HMAC-MD5 actually keys with: short keys are zero-padded to the
+    64-byte block, long ones hashed first"""
+    import hashlib
+    if len(key) > 64:
+        key = hashlib.md5(key).digest()
+    return key.ljust(64, b'\0')
+
+
 def _wrong_key(spec, right):
     kind, a, b = spec[0], spec[1], spec[2]
     if kind == 'flip':
@@ -1355,7 +1398,11 @@ def _wrong_key(spec, right):
         key = hmac.new(right, bytes([a % 256]), 'md5').digest()
     else:
         key = bytes(int(x) % 256 for x in a)
-    return key if key != right else key + b'x'
+    # right + b'\0' (or right minus trailing zeros) is the *same* HMAC key
+    # (zero padding), not a wrong one: step aside by construction
+    while _hmac_key(key) == _hmac_key(right):
+        key += b'\x01'
+    return key
 
 
 def _press_on(address, key):
@@ -1409,7 +1456,7 @@ def _no_key(address):
 
 
 def execute_auth(case):
-    from billiard import AuthenticationError, process
+    from billiard import process
     from billiard import connection as bc
     from billiard import managers
     mgr = _manager()
@@ -1499,16 +1546,43 @@ PARTS = {'hist': execute_hist, 'conc': execute_conc,
          'registered': execute_registered, 'auth': execute_auth}
 
 
-def run(ctx):
+def _rounds(ctx, part, make_strategy, execute, n, budget, **kw):
+    """quick: ``n`` cases.  thorough: rounds of ``n`` cases until ``budget``
+    seconds are used (Hypothesis would otherwise spend minutes generating
+    examples that the time cap then skips).  vlib derives the Hypothesis seed
+    from the shard number, so every round runs under its own pseudo shard
+    number; the real one is restored afterwards."""
+    if ctx.tier == 'quick' or not ctx.wants(part):
+        ctx.explore(part, make_strategy(), execute, n=n, **kw)
+        return
+    import time
+    t0, real, r = time.time(), ctx.shard, 0
     try:
-        ctx.explore('hist', hist_cases(), execute_hist,
-                    n=ctx.pick(100, 2500), shrink_budget=200)
-        ctx.explore('conc', conc_cases(), execute_conc,
-                    n=ctx.pick(10, 250), shrink_budget=0, reexecute_confirm=2)
-        ctx.explore('registered', registered_cases(), execute_registered,
-                    n=ctx.pick(30, 700), shrink_budget=100)
-        ctx.explore('auth', auth_cases(), execute_auth,
-                    n=ctx.pick(15, 300), shrink_budget=60)
+        while not any(v['part'] == part for v in ctx.violations):
+            left = budget - (time.time() - t0)
+            if left <= 1:
+                break
+            ctx.shard = real + 1000 * r
+            ctx.explore(part, make_strategy(), execute, n=n, time_cap=left, **kw)
+            r += 1
+    finally:
+        ctx.shard = real
+    ctx.part(part).budget_cut = True      # bounded by time, not by count
+
+
+def run(ctx):
+    q = ctx.tier == 'quick'
+    try:
+        _rounds(ctx, 'hist', hist_cases, execute_hist, 8 if q else 25, 400,
+                shrink_budget=40 if q else 150)
+        _rounds(ctx, 'conc', conc_cases, execute_conc, 3 if q else 10, 90,
+                shrink_budget=0, reexecute_confirm=2)
+        _rounds(ctx, 'registered', registered_cases, execute_registered,
+                6 if q else 25, 110, shrink_budget=30 if q else 100)
+        _rounds(ctx, 'registered', lambda: registered_cases(pool=True),
+                execute_registered, 2 if q else 4, 100, shrink_budget=0)
+        _rounds(ctx, 'auth', auth_cases, execute_auth, 4 if q else 20, 60,
+                shrink_budget=20 if q else 60)
         ctx.notes['managers_started'] = _M['started']
     finally:
         _shutdown_manager()
